@@ -373,13 +373,39 @@ theorem pi_wellformed_accepted :
 /-- `<Key a=b>k</Key>` -/
 def docAttr : Bytes := [60, 75, 101, 121, 32, 97, 61, 98, 62, 107, 60, 47, 75, 101, 121, 62]
 
-/-- F-xml-5b (`xml-illformed-accepted:attribute-syntax`, open — like the clauses 5c … 5f, 5j, 5k): an unquoted attribute value
-is accepted … -/
-theorem illformed_accepted :
-    strOf (decodeDoc X0 (.named key) .str (deEvents (tokenize docAttr))) = some [107] := by decide
+/-- F-xml-5b (`xml-illformed-accepted:attribute-syntax`, FIXED by ab8d746): an unquoted attribute value,
+`<Key a=b>k</Key>` (the witness `w-illformed-attr`, inside `<Tag>` there), is refused with `InvalidXml` (before:
+accepted as `k`, the attributes of the start tag were never looked at) … -/
+theorem attr_unquoted_refused :
+    errOf (decodeDoc X0 (.named key) .str (deEvents (tokenize docAttr))) = some .invalidXml := by decide
 
-/-- … although not well-formed -/
+/-- `<Key` attrs `>k</Key>` -/
+def docAttrs (attrs : Bytes) : Bytes := [60, 75, 101, 121] ++ attrs ++ [62, 107, 60, 47, 75, 101, 121, 62]
+
+/-- … so are an attribute without `=` (` a`), without value (` a=`), with a value that is not closed before the end
+of the tag (` a="b`) and an attribute written twice (` a="1" a="2"`) … -/
+theorem attr_syntax_refused :
+    ([[32, 97], [32, 97, 61], [32, 97, 32, 98, 61, 34, 49, 34], [32, 97, 61, 34, 49, 34, 32, 97, 61, 34, 50, 34],
+      [32, 97, 61, 34, 49, 34, 32, 98, 61, 39, 50, 39, 32, 97, 61, 39, 39]].all fun as =>
+      errOf (decodeDoc X0 (.named key) .str (deEvents (tokenize (docAttrs as)))) == some .invalidXml) = true := by decide
+
+/-- … also in an empty-element tag, `<Key a=b/>` (before: the empty string) … -/
+theorem attr_unquoted_in_empty_tag_refused :
+    errOf (decodeDoc X0 (.named key) .str (deEvents (tokenize [60, 75, 101, 121, 32, 97, 61, 98, 47, 62]))) = some .invalidXml := by
+  decide
+
+/-- … the specification: none of them is well-formed … -/
 theorem illformed_is_illformed :
     (match XmlSpec.parse docAttr with | .error (.illFormed _) => true | _ => false) = true := by decide
+
+theorem attr_syntax_illformed :
+    ([[32, 97], [32, 97, 61], [32, 97, 32, 98, 61, 34, 49, 34], [32, 97, 61, 34, 49, 34, 32, 97, 61, 34, 50, 34],
+      [32, 97, 61, 34, 49, 34, 32, 98, 61, 39, 50, 39, 32, 97, 61, 39, 39]].all fun as =>
+      match XmlSpec.parse (docAttrs as) with | .error (.illFormed _) => true | _ => false) = true := by decide
+
+/-- … well-formed attributes are skipped as before: `<Key a = 'x' b="y" >k</Key>` is `k` -/
+theorem attr_wellformed_accepted :
+    strOf (decodeDoc X0 (.named key) .str (deEvents (tokenize
+      (docAttrs [32, 97, 32, 61, 32, 39, 120, 39, 32, 98, 61, 34, 121, 34, 32])))) = some [107] := by decide
 
 end S3V.C13.Findings
